@@ -194,6 +194,82 @@ class Leaf(Exception):
 
 
 # ----------------------------------------------------------------------------
+# source position of an atomic statement as the DISPATCH_VERIF hook reports it
+
+_src_cache = {}
+
+# kind numbers of the hook (src/shims/atomic.h, enum DV_*)
+DV_KIND = {"KLoad": 1, "KStore": 2, "KXchg": 3, "KCas": 4, "KCasWeak": 5, "KAdd": 6, "KSub": 7, "KAnd": 8, "KOr": 9,
+           "KXor": 10}
+
+
+def macro_extent(xfile, xoff):
+    """(first line, last line) of the macro invocation (or plain token) that starts at byte xoff of xfile.
+    clang expands __LINE__ inside a function-like macro to the line of the END of the outermost invocation (the closing
+    parenthesis), so every hook call made by one os_atomic_* statement reports the last line."""
+    if xfile not in _src_cache:
+        with open(xfile, "rb") as fh:
+            _src_cache[xfile] = fh.read()
+    b = _src_cache[xfile]
+    n = len(b)
+    lo = b.count(b"\n", 0, xoff) + 1
+    i = xoff
+    while i < n and (b[i:i + 1].isalnum() or b[i:i + 1] == b"_"):
+        i += 1
+
+    def skip_blank(i):
+        while i < n:
+            if b[i:i + 1].isspace():
+                i += 1
+            elif b[i:i + 2] == b"//":
+                j = b.find(b"\n", i)
+                i = n if j < 0 else j
+            elif b[i:i + 2] == b"/*":
+                j = b.find(b"*/", i + 2)
+                i = n if j < 0 else j + 2
+            elif b[i:i + 2] == b"\\\n":
+                i += 2
+            else:
+                break
+        return i
+    i = skip_blank(i)
+    if i == xoff or b[i:i + 1] != b"(":
+        return lo, lo          # not a function-like macro invocation
+    depth = 0
+    while i < n:
+        c = b[i:i + 1]
+        if c in (b'"', b"'"):
+            q = c
+            i += 1
+            while i < n and b[i:i + 1] != q:
+                i += 2 if b[i:i + 1] == b"\\" else 1
+            i += 1
+            continue
+        j = skip_blank(i)
+        if j != i:
+            i = j
+            continue
+        if c == b"(":
+            depth += 1
+        elif c == b")":
+            depth -= 1
+            if depth == 0:
+                return lo, b.count(b"\n", 0, i) + 1
+        i += 1
+    raise Unsupported("unbalanced macro invocation at %s:%d" % (xfile, lo))
+
+
+def site_pos(node):
+    """{file (relative to the repo), lo, hi} of the statement that produced AST node `node`, or None"""
+    xf, xo = node.get("xfile"), node.get("xoff")
+    if xf is None or xo is None:
+        return None
+    lo, hi = macro_extent(xf, xo)
+    rel = os.path.relpath(xf, astdump.REPO) if os.path.isabs(xf) else xf
+    return {"file": rel, "lo": lo, "hi": hi}
+
+
+# ----------------------------------------------------------------------------
 
 class FnInfo:
     def __init__(self):
@@ -237,7 +313,7 @@ class Translator:
         return self.field_ids[fname]
 
     # -- function acquisition
-    def get(self, cfile, fname, mode="fn", forced=False, loop=0, alias=None):
+    def get(self, cfile, fname, mode="fn", forced=False, loop=0, alias=None, field=None):
         key = alias or fname
         if mode == "rmwloop":
             decl = astdump.get_function(cfile, fname)
@@ -251,6 +327,24 @@ class Translator:
                 raise Unsupported("%s#%d: %s" % (fname, loop, e))
             info.coqname = sanitize(key)
             info.text = info.text.replace("Definition %s " % sanitize(fname), "Definition %s " % sanitize(key), 1)
+            self.fns[key] = info
+            self.order.append(key)
+            return info
+        if mode == "atomicop":
+            # the n-th single atomic read-modify-write (fetch_add/sub/and/or/xor) on one field in a function, as the
+            # trivial transition function of the value it found: Commit (old <op> operand) 0
+            decl = astdump.get_function(cfile, fname)
+            if decl is None:
+                raise Unsupported("no definition of %s visible in %s" % (fname, cfile))
+            ft = FnTrans(self, cfile, decl, "rmw")
+            ft.info.coqname = sanitize(key)
+            try:
+                info = ft.translate_atomicop(loop, field or "dq_state")
+            except Unsupported as e:
+                raise Unsupported("%s op#%d: %s" % (fname, loop, e))
+            info.coqname = sanitize(key)
+            info.cparams_all = ft.cparams
+            info.outs_ids = []
             self.fns[key] = info
             self.order.append(key)
             return info
@@ -411,6 +505,75 @@ class FnTrans:
         self.info.sites = self.sites
         self.info.text = "(* %s:%s %s *)\n" % (self.cfile, self.line, self.info.name) + hdr + "  " + term + ".\n"
         return self.info
+
+    def translate_atomicop(self, index, field):
+        d = self.decl
+        env = Env()
+        body = None
+        for c in d.get("inner", []):
+            if c["kind"] == "ParmVarDecl":
+                t = ctype(c["type"], self.tr)
+                nm = c.get("name") or ("arg%d" % len(self.cparams))
+                self.vtypes[c["id"]] = t
+                self.names[c["id"]] = nm
+                self.cparams.append(dict(coq=nm, kind="c", id=c["id"], type=t, cname=nm))
+            elif c["kind"] == "CompoundStmt":
+                body = c
+        self.ret = T("void")
+        self.loop_only = True        # free variables of the operand become parameters, constant locals are inlined
+        ops, macro_v = [], {}
+
+        def walk(n):
+            if n.get("kind") == "VarDecl" and n.get("name") == "_v":
+                init = [c for c in n.get("inner", []) if "Attr" not in c["kind"]]
+                if init:
+                    macro_v[n["id"]] = init[0]
+            if n.get("kind") == "VarDecl" and n.get("name") == "_p" and n.get("inner"):
+                self.alias["_p"] = self.atomic_field(n["inner"][0])
+            if n.get("kind") == "AtomicExpr" and ATOMIC_KIND.get(n.get("atomic")) in ("KAdd", "KSub", "KAnd", "KOr", "KXor") \
+                    and self.atomic_field(n["inner"][0]) == field:
+                ops.append(n)
+            for c in n.get("inner", []):
+                walk(c)
+        walk(body)
+        if index >= len(ops):
+            raise Unsupported("%s has %d atomic read-modify-write operations on %s, wanted #%d" % (
+                self.info.name, len(ops), field, index))
+        at = ops[index]
+        kind = ATOMIC_KIND[at["atomic"]]
+        tv = self.T(at)
+        if tv.kind != "int" or tv.sign != "u":
+            raise Unsupported("atomic operation on a non-unsigned word (%s)" % tv)
+        operand = at["inner"][2]
+        o = skip_paren(operand)
+        if o.get("kind") == "DeclRefExpr" and o["referencedDecl"]["id"] in macro_v:
+            operand = macro_v[o["referencedDecl"]["id"]]     # the macro's `_v = (v)`
+        lets = []
+        v = self.E(operand, env, lets)
+        to = self.T(operand)
+        if to.kind == "int" and not subrange(to, tv):
+            v = wrap(tv, v)                                    # conversion of the operand to the word's type
+        oldname = self.fresh("old_state")
+        op = {"KAdd": "+", "KSub": "-", "KAnd": "&", "KOr": "|", "KXor": "^"}[kind]
+        term = self.with_lets(lets, "Commit %s 0" % self.arith(op, tv, oldname, v, at))
+        self.extra_params.append(dict(coq=oldname, kind="old", key=("old",)))
+        info = self.info
+        info.mode = "rmw"
+        info.params = list(self.extra_params)
+        info.old_param = oldname
+        info.nouts = 0
+        info.ret = self.ret
+        info.has_trap = False
+        info.order = ORDER.get(skip_paren(at["inner"][1]).get("referencedDecl", {}).get("name"), "SeqCst")
+        info.rmw_field = field
+        info.rmw_pos = site_pos(at)
+        info.rmw_kind = kind
+        info.sites = [(at.get("line", 0), kind, field, info.order)]
+        ps = " ".join("(%s : Z)" % p["coq"] for p in info.params)
+        pos = info.rmw_pos or {"file": self.cfile, "lo": self.line, "hi": self.line}
+        info.text = "(* %s:%s %s: os_atomic %s on %s *)\nDefinition %s %s : rmw_outcome :=\n  %s.\n" % (
+            pos["file"], pos["hi"], info.name, kind[1:].lower(), field, info.coqname, ps, term)
+        return info
 
     def ret_type_str(self):
         n = len(self.outs) + (0 if self.ret.kind == "void" else 1)
@@ -949,6 +1112,19 @@ class FnTrans:
             return None
         return v
 
+    def var_type(self, vid):
+        """C type of a variable/parameter of the function by declaration id (informational: site tables), or None"""
+        self.const_local(None)        # fills the declaration index
+        d = self._const_cache.get(vid)
+        if d is None:
+            for c in self.decl.get("inner", []):
+                if c.get("kind") == "ParmVarDecl" and c.get("id") == vid:
+                    d = c
+        try:
+            return ctype(d["type"], self.tr) if d is not None else None
+        except Unsupported:
+            return None
+
     def goto_is_backward(self, g):
         """does this goto jump to a label that precedes it in the function text (a retry)?"""
         target = g.get("targetLabelDeclId")
@@ -1039,6 +1215,8 @@ class FnTrans:
         body_stmts = dobody[:-1]
         self.info.order = order
         self.info.rmw_field = field
+        self.info.rmw_pos = site_pos(se)
+        self.info.rmw_kind = ATOMIC_KIND.get(cas.get("atomic"), "KCasWeak")
         oldname = self.fresh(self.names.get(ovid, "old_state"))
         self.info.old_param = oldname
         self.extra_params.append(dict(coq=oldname, kind="old", key=("old",)))
@@ -1297,12 +1475,12 @@ class FnTrans:
                 cv = self.const_local(vid)
                 if cv is not None:
                     return cv
-                return self.extra(("free", vid), nm, "free")
+                return self.extra(("free", vid), nm, "free", type=self.var_type(vid))
             self.err(n, "reference to non-local variable %s" % nm)
         if v is None:
             if self.loop_only:
                 nm = n["referencedDecl"].get("name")
-                return self.extra(("free", vid), nm, "free")
+                return self.extra(("free", vid), nm, "free", type=self.var_type(vid))
             self.err(n, "read of uninitialised variable %s" % n["referencedDecl"].get("name"))
         if isinstance(v, tuple):
             self.err(n, "struct value used as scalar")
@@ -1896,6 +2074,7 @@ def generate(cfgpath, outdir):
     for mod in cfg["modules"]:
         for t in mod["targets"]:
             jobs.append((t.get("file", mod.get("file")), t["name"]))
+    jobs = list(dict.fromkeys(jobs))
     with ThreadPoolExecutor(max_workers=16) as ex:
         list(ex.map(lambda j: _safe_get(j), jobs))
     tr_all = []
@@ -1914,7 +2093,8 @@ def generate(cfgpath, outdir):
         tr.field_ids = all_fields
         for t in mod["targets"]:
             try:
-                tr.get(t.get("file", mod.get("file")), t["name"], t.get("mode", "fn"), loop=t.get("loop", 0), alias=t.get("as"))
+                tr.get(t.get("file", mod.get("file")), t["name"], t.get("mode", "fn"), loop=t.get("loop", t.get("op", 0)),
+                       alias=t.get("as"), field=t.get("field"))
             except Unsupported as e:
                 errors.append("%s: %s" % (mod["name"], e))
         tr_all.append((mod, tr))
@@ -1963,6 +2143,8 @@ def generate(cfgpath, outdir):
                 ss = "; ".join("{| s_kind := %s; s_field := %d (* %s *); s_order := %s |}" %
                                (k, tr.field_id(f), f, o) for (_, k, f, o) in info.sites)
                 out.append("Definition %s_sites : list site := [%s].\n" % (info.coqname, ss))
+        if mod.get("site_table"):
+            out += site_table(mod, tr, outdir, errors)
         write_if_changed(os.path.join(outdir, mod["name"] + ".v"), "\n".join(out) + "\n")
         results[mod["name"]] = {fn: [(p["coq"], p["kind"]) for p in tr.fns[fn].params] for fn in tr.order
                                 if tr.fns[fn].mode != "sites" and not fn.startswith("sites:")}
@@ -1974,6 +2156,53 @@ def generate(cfgpath, outdir):
     with open(os.path.join(outdir, "signatures.json"), "w") as fh:
         json.dump(results, fh, indent=1)
     return errors
+
+
+def site_table(mod, tr, outdir, errors):
+    """module option "site_table": "<prefix>" — for every rmw / rmwloop / atomicop function of the module, where its
+    committing atomic statement is in the source as the DISPATCH_VERIF hook reports it (file, line range; __LINE__ is
+    the last line), and a dispatcher from function ids to the generated functions. Emitted as Coq definitions
+    (<prefix>_site_table, <prefix>_apply) and as <outdir>/<prefix>_sites.json (parameter names/kinds for the checker)."""
+    prefix = mod["site_table"]
+    files, rows, arms, js = [], [], [], []
+    for fname in tr.order:
+        info = tr.fns[fname]
+        if info.mode != "rmw":
+            continue
+        pos = getattr(info, "rmw_pos", None)
+        if getattr(info, "rmw_field", None) != mod.get("site_field", "dq_state"):
+            errors.append("%s: %s operates on %s, not on %s: it cannot be in the site table" % (
+                mod["name"], fname, getattr(info, "rmw_field", None), mod.get("site_field", "dq_state")))
+            continue
+        if pos is None:
+            errors.append("%s: %s: no source position for its atomic statement" % (mod["name"], fname))
+            continue
+        if pos["file"] not in files:
+            files.append(pos["file"])
+        fid = len(js)
+        kind = DV_KIND[info.rmw_kind]
+        ps = [p for p in info.params if p["kind"] != "old"]
+        rows.append("(%d, %d, %d, %d, %d) (* %s:%d-%d %s *)" % (files.index(pos["file"]), pos["lo"], pos["hi"], kind, fid,
+                                                                pos["file"], pos["lo"], pos["hi"], info.coqname))
+        pat = "[" + "; ".join(p["coq"] for p in ps) + "]"
+        arms.append("  | %d, %s => Some (%s %s)" % (fid, pat, info.coqname, " ".join(
+            "site_old" if p["kind"] == "old" else p["coq"] for p in info.params)))
+        js.append({"fn_id": fid, "coq": info.coqname, "c_function": info.name, "file": pos["file"],
+                   "file_id": files.index(pos["file"]), "line_lo": pos["lo"], "line_hi": pos["hi"], "kind": kind,
+                   "order": info.order, "field": getattr(info, "rmw_field", None), "old": info.old_param,
+                   "params": [{"name": p["coq"], "kind": p["kind"], "type": repr(p["type"]) if p.get("type") is not None else None,
+                               "c": p.get("cname") or (("%s->%s" % (p.get("rootname"), p.get("field"))) if p["kind"] == "member" else p["coq"])}
+                              for p in ps]})
+    out = ["(* where each transition function's atomic statement is in the source, as the DISPATCH_VERIF hook reports it:",
+           "   (file id, first line, last line = the hook's __LINE__, hook kind of the committing operation, function id);",
+           "   file ids: %s *)" % ", ".join("%d = %s" % (i, f) for i, f in enumerate(files)),
+           "Definition %s_site_table : list (Z * Z * Z * Z * Z) :=\n  [%s].\n" % (prefix, ";\n   ".join(rows)),
+           "(* function id -> generated function applied to its parameters (all but the value read, in declaration order) *)",
+           "Definition %s_apply (site_fn : Z) (site_ps : list Z) (site_old : Z) : option rmw_outcome :=\n  match site_fn, site_ps with\n%s\n  | _, _ => None\n  end.\n"
+           % (prefix, "\n".join(arms))]
+    text = json.dumps({"module": mod["name"], "files": files, "sites": js}, indent=1) + "\n"
+    write_if_changed(os.path.join(outdir, "%s_sites.json" % prefix), text)
+    return out
 
 
 def _safe_get(j):
